@@ -1,7 +1,7 @@
 """C03 — regular-expression strings and `matches` agree with regex semantics.
 
  (1) Lean: Spec/Re.lean + `ends_iff_Matches`; Thm/C03.lean (range_table: the counted-repeat emit table of re.c is
-     equivalent to `range n m e`; vm soundness on the bytecode model; matches_sound_partial for the scan mode);
+     equivalent to `range n m e`; vm soundness on the bytecode model for every well-formed expression; matches_sound for the scan mode);
  (2) spec-level correspondence: generated regex ASTs (<= 12 nodes, all-greedy or all-lazy, classes, escapes, anchors,
      word boundaries, /i /s, nocase ascii wide fullword, atoms forced into groups / branches / counted repeats) are
      printed as YARA text, run through the real compiler+scanner (complete match list) and the compiled Lean spec;
@@ -22,11 +22,14 @@ MANIFEST = dict(
          "(ends_iff_Matches, incl. the closures of * + {n,m}) and the driver's evaluator computes it (driver_evaluates_spec); the prolog/repeat/split/epilog code shape of "
          "counted repeats denotes exactly e{n,m} for all n <= m (range_table, range_concat); forward-from-the-atom + exhaustive-backward-from-the-atom equals a whole match "
          "with atoms inside groups, alternation branches and + bodies (decompose); everything the VM model reports (callback lengths, *matches, also in the scan mode of "
-         "`matches`) comes from a reachable fiber at RE_OPCODE_MATCH (vm_reports_reachable, any bytecode); and on the code of the emit model the VM is SOUND for every expression "
-         "built from literals, ., \\w\\W\\s\\S\\d\\D, ^ $ \\b \\B, .{n,m}, concatenation, alternation, *, + and ? (greedy or lazy), bracket classes, byte mode, forward code, with "
-         "or without the scan mode (vm_sound_partial; matches_sound_partial: a true `matches` verdict implies a matching substring). "
-         "NOT proved: counted repeats e{n,m} of a non-dot body other than e? inside the VM proof (counter stack), wide mode, backward code, VM completeness with "
-         "epsilon-loops, atom extraction, Aho-Corasick. That gap is covered by SAMPLING on "
+         "`matches`) comes from a reachable fiber at RE_OPCODE_MATCH (vm_reports_reachable, any bytecode); and on the code of the emit model the VM is SOUND for EVERY well-formed expression "
+         "(WF: every RE_NODE kind incl. the empty alternative and counted repeats e{n,m} of every emit-table row - prolog copy, REPEAT_START/REPEAT_END loop with the counter on the "
+         "fiber stack, split + epilog - n <= m < 65536, greedy or lazy, nested in any way; code below the emitter's int16 jump range), all buffers, start "
+         "positions and flags: forward code in byte mode with or without the scan mode (vm_sound; matches_sound: a true `matches` verdict implies a matching substring), "
+         "forward code with one- or two-byte (wide) characters (vm_sound_forward), and backward code - proved to be the forward code of the mirrored expression - run with "
+         "RE_FLAGS_BACKWARDS, byte or wide (vm_sound_backward: L <= start and the expression matches buf[start-L, start)). "
+         "NOT proved: runs entering the code at an atom's instruction (the forward+backward composition of _yr_scan_verify_re_match; at specification level: decompose), the "
+         "fast matcher, VM completeness (epsilon-loops, fiber limits), atom extraction, Aho-Corasick. That gap is covered by SAMPLING on "
          "every run: generated regexes (<= 12 nodes, all-greedy / all-lazy, anchors, word boundaries, classes, /i /s, nocase ascii wide fullword, atoms forced into groups, "
          "branches and repeats) x buffers (< 1024 bytes) through the real engine vs. the compiled Lean specification (complete match lists, `matches` verdicts through literal "
          "and external operands), the parser AST tie (incl. class bitmaps and greedy flags), the real bytecode through the C VM and the Lean VM model, the whole-expression code "
@@ -247,7 +250,9 @@ def sample(alts, r, depth=0):
 def sample_node(n, r, depth):
     k = n[0]
     if k == "ch": return bytes([n[1]])
-    if k == "dot": return bytes([r.choice([c for c in ALPHA if c != 0x0A])])
+    if k == "dot":
+        # the boundary values of the wildcard (atoms spanning a `.` are expanded 00..FF) come up often
+        return bytes([r.choice([0x00, 0xFF, 0xFF, 0x01, 0xFE]) if r.random() < 0.35 else r.choice([c for c in ALPHA if c != 0x0A])])
     if k == "esc":
         f = {"w": is_word, "s": is_space, "d": is_digit}[n[1].lower()]
         pool = [c for c in ALPHA + SPACES + [0x30, 0x39] if f(c) != n[1].isupper()]
@@ -255,7 +260,9 @@ def sample_node(n, r, depth):
     if k == "cls":
         bm = cls_bitmap(n[1])
         pool = [c for c in ALPHA + list(range(256)) if bool(bm >> c & 1) != n[2]]
-        return bytes([pool[0] if r.random() < 0.5 else r.choice(pool[:40])]) if pool else b""
+        if not pool: return b""
+        u = r.random()
+        return bytes([pool[0] if u < 0.35 else max(pool) if u < 0.5 else min(pool) if u < 0.6 else r.choice(pool[:40])])
     if k == "grp": return sample(n[1], r, depth + 1)
     if k == "rep":
         lo = n[3]; hi = n[4] if n[4] is not None else lo + 3
@@ -479,7 +486,7 @@ CORPUS = [
     ("/^(a{,2}?){4,4}?/", "", "a", b"Aaaaaaa", "C(^,Rl4,4(Rl0,2(l61)))"),
     ("/(a{0})+b/", "", "a", b"ab", "C(+g(Rg0,0(l61)),l62)"), ("/x(a?b)+c/", "", "a", b"xabbc xbabc"),
     ("/[0-0]/", "wide fullword", "wf", b"a\x000\x00"), ("/[0-0]/", "wide fullword", "wf", b"a0\x00"), ("/[0-0]x*/", "wide fullword", "wf", b"0\x00a\x00"),
-    ("/x.abc.y/", "", "a", b"--x1abc2y--abc"), ("/x(aa|a){4,6}y/", "", "a", b"xaaaay xaaay"), ("/x[a-f\\W]y/", "", "a", b"xay x-y xgy"),
+    ("/x.abc.y/", "", "a", b"--x1abc2y--abc"), ("/ab.d/", "", "a", b"ab\xffd ab\x00d abcd"), ("/ab[^c]d/", "", "a", b"ab\xffd ab\x00d abcd"), ("/x(aa|a){4,6}y/", "", "a", b"xaaaay xaaay"), ("/x[a-f\\W]y/", "", "a", b"xay x-y xgy"),
     ("/x[\\Wa-f]y/", "", "a", b"xay x-y xgy"), ("/x[^\\da-c]y/", "", "a", b"xay x1y xdy"),
     ("/[^a-c]x/i", "", "ai", b"Ax dx Dx"), ("/a.c/s", "wide", "ws", b"a\0\n\0c\0a\0b\0c\0"), ("/(a*)*b/", "", "a", b"aaab"), ("/(a|)*b/", "", "a", b"aab"),
 ]
